@@ -25,6 +25,11 @@ ADAPTERS = ["ddpg", "td3", "td3_lap", "td7", "mrq", "pets", "td3", "td3_lap"]  #
 def make_plan(rng, tier, index):
     name = ADAPTERS[index % len(ADAPTERS)]
     plan = trainplan.base_plan(rng, PROPERTY, CLAUSES, name, T=rng.choice([12, 20]) if name != "pets" else 10)
+    if name == "pets" and rng.random() < 0.7:
+        # per-dimension different bounds and a multi-step plan: the planner's bound arrays are (horizon, action_dim)
+        lo, hi = rng.choice([([-1.0, 0.0], [2.0, 0.25]), ([-2.0, -0.5], [2.0, 0.5]), ([0.5, -3.0, 10.0], [1.0, 3.0, 11.0])])
+        plan["env"]["low"], plan["env"]["high"], plan["env"]["act_dim"] = lo, hi, len(lo)
+        plan["cfg"]["plan_horizon"] = rng.choice([2, 3])
     plan["supply_targets"] = name in ("td3", "td3_lap") or rng.random() < 0.5
     if "learning_starts" in plan["cfg"] and name not in ("mrq", "pets"):
         plan["cfg"]["learning_starts"] = rng.choice([0, 2, 4])
